@@ -12,7 +12,7 @@ pub struct Gen {
     pub a: f64,     // band low
     pub b: f64,     // band high
     pub every: u64, // print output every `every` steps (and at the last step)
-    pub mode: u64,  // 0 scalar, 1 user bar
+    pub mode: u64,  // 0 scalar, 1 user bar, 2 one-price bar (o=h=l=c=x)
 }
 
 impl Gen {
@@ -124,6 +124,9 @@ pub fn bar(g: &Gen, st: &mut GS) -> UBar {
         c = h;
     }
     let v = if (st.s >> 5) % 8 == 0 { 0.0 } else { 1000.0 * u4 };
+    if g.mode == 2 {
+        return UBar { o: x, h: x, l: x, c: x, v };
+    }
     UBar { o: x, h, l, c, v }
 }
 
